@@ -190,10 +190,7 @@ def py_exec(mem: Any, op: List[Any]) -> int:
 def _where(m: M.Model, op: List[Any]) -> str:
     regions, flags = M.describe(m, op[1], op[2] // 8)
     via = op[-1]
-    s = f"{m.kind} {op[0]}{op[2]}/{via} {regions}"
-    if flags:
-        s += " +" + "+".join(flags)
-    return s
+    return f"{m.kind} {op[0]}{op[2]}/{via} [{','.join(flags)}] {regions}"
 
 
 class Checker:
